@@ -338,7 +338,11 @@ def r_feature_methods(repo, rep, R='R14.6'):
                 if e[0] != 'getattr':
                     continue
                 recv, attr, node = e[1], e[2], e[3]
-                if not (recv[0] == 'attr' and recv[2] == 'feature') or id(node) in seen:
+                # a feature value: x.feature, or an entry of the matcher's tables of features seen per variable
+                # (self.x_features[v] / self.y_features[v], filled with .feature values by the structural scan)
+                is_feat = (recv[0] == 'attr' and recv[2] == 'feature') or (
+                    recv[0] == 'sub' and recv[1][0] == 'attr' and recv[1][2] in ('x_features', 'y_features') and mod.rel == UNI)
+                if not is_feat or id(node) in seen:
                     continue
                 seen.add(id(node))
                 n += 1
